@@ -410,8 +410,87 @@ func runParseCase(c pCase) (mis []map[string]any) {
 		return runTrip(c)
 	case "scalar":
 		return runScalar(c)
+	case "inttrip":
+		return runIntTrip(c)
 	}
 	return nil
+}
+
+func sTrip[I flaghelper.SignedInt](vals []*big.Int) (string, string, string, error) {
+	in := make([]I, len(vals))
+	for i, v := range vals {
+		in[i] = I(v.Int64())
+	}
+	text := flaghelper.NewSignedIntegralSlice(&in).String()
+	got, err := parse.SignedIntegralSlice[I](text)
+	return text, fmt.Sprint(in), fmt.Sprint(got), err
+}
+
+func uTrip[I flaghelper.UnsignedInt](vals []*big.Int) (string, string, string, error) {
+	in := make([]I, len(vals))
+	for i, v := range vals {
+		in[i] = I(v.Uint64())
+	}
+	text := flaghelper.NewUnsignedIntegralSlice(&in).String()
+	got, err := parse.UnsignedIntegralSlice[I](text)
+	return text, fmt.Sprint(in), fmt.Sprint(got), err
+}
+
+// runIntTrip: the canonical text of an integer slice made of its element type's extremes parses back to that slice
+func runIntTrip(c pCase) (mis []map[string]any) {
+	min, max := intBounds(c.Kind)
+	var vals []*big.Int
+	for _, e := range c.Elems {
+		switch e {
+		case "min":
+			vals = append(vals, min)
+		case "max":
+			vals = append(vals, max)
+		case "zero":
+			vals = append(vals, big.NewInt(0))
+		case "one":
+			vals = append(vals, big.NewInt(1))
+		case "minusone":
+			if strings.HasPrefix(c.Kind, "u") {
+				vals = append(vals, new(big.Int).Sub(max, big.NewInt(1)))
+			} else {
+				vals = append(vals, big.NewInt(-1))
+			}
+		}
+	}
+	var text, want, got string
+	var err error
+	switch c.Kind {
+	case "int":
+		text, want, got, err = sTrip[int](vals)
+	case "int8":
+		text, want, got, err = sTrip[int8](vals)
+	case "int16":
+		text, want, got, err = sTrip[int16](vals)
+	case "int32":
+		text, want, got, err = sTrip[int32](vals)
+	case "int64":
+		text, want, got, err = sTrip[int64](vals)
+	case "uint":
+		text, want, got, err = uTrip[uint](vals)
+	case "uint8":
+		text, want, got, err = uTrip[uint8](vals)
+	case "uint16":
+		text, want, got, err = uTrip[uint16](vals)
+	case "uint32":
+		text, want, got, err = uTrip[uint32](vals)
+	case "uint64":
+		text, want, got, err = uTrip[uint64](vals)
+	default:
+		return nil
+	}
+	if err != nil {
+		return append(mis, pMis("prop", fmt.Sprintf("[]%s %s: canonical form %q does not parse: %v", c.Kind, want, text, err)))
+	}
+	if got != want {
+		mis = append(mis, pMis("prop", fmt.Sprintf("[]%s %s: canonical form %q parses as %s", c.Kind, want, text, got)))
+	}
+	return mis
 }
 
 func parseMain(args []string) {
